@@ -98,6 +98,19 @@ def check_case(ctx, case):
         else:
             compare(ctx, "dict", o.value, events, cid)
             check_meta(ctx, "dict", o.value, case, L, region)
+        # a second region in the same process that differs only in the order of its cells (same name, spacing, cell count and
+        # bounding box): it must come back as itself, not as the one loaded before
+        if region is not None and len(L.cells) >= 2:
+            Lv = lattice.Lattice(dict(case["region"], cells=list(reversed(case["region"]["cells"]))))
+            ov = call(Lv.build, "from_origins")
+            if ov.ok:
+                region_v = ov.value
+                o = call(lambda: CSEPCatalog.from_dict(CSEPCatalog(data=list(events), catalog_id=cid, name=case["name"], region=region_v).to_dict()))
+                if not o.ok:
+                    ctx.unexpected(o, "dict_roundtrip:second_region")
+                else:
+                    ctx.count("second_region_roundtrips")
+                    check_meta(ctx, "dict:second_region_same_extent", o.value, case, Lv, region_v)
         # ---- JSON
         pj = os.path.join(d, "cat.json")
         o = call(lambda: (fresh().write_json(pj), CSEPCatalog.load_json(pj))[1])
